@@ -155,6 +155,20 @@ pub fn check(s: &'static dyn Proto, c: &Case, st: &mut Stats, _k: &KnownFindings
             ensure_eq!(s.ser(Codec::Native, &b), sst_d_bytes, "no-fault control: state");
         }
     }
+    // ---- faults during ServerRegistration::start: however many calls it makes to the key
+    // (none on the reference tree), a failure at call n must come back as that error
+    for n in 1..=reg_calls.len() as u32 {
+        remote::reset(n);
+        let r = guarded(|| s.remote_server_reg_start(rsetup.as_ref(), &req, &cred))
+            .map_err(|p| Fail::new(format!("ServerRegistration::start panicked when the external key failed at call {n}: {p}")))?;
+        remote::take_calls();
+        st.eval(1);
+        match r {
+            Err(PErr::Library(IErr::Custom(k))) if k == n => st.label("fault@registration-start"),
+            Err(x) => return Err(Fail::new(format!("external key failed at call {n} of ServerRegistration::start with Custom({n}) but the operation returned {x:?}"))),
+            Ok(_) => return Err(Fail::new(format!("external key failed at call {n} but ServerRegistration::start still produced a response"))),
+        }
+    }
     // ---- faults while building / restoring the setup
     let n_setup = setup_calls.len() as u32;
     for n in 1..=n_setup {
